@@ -167,3 +167,204 @@ Example C18_nonvacuous :
   exps_gt1 e = true /\ eval e = Some (5 + 2 ^ 35) /\
   mod_top e 54 = MVal 19 /\ (5 + 2 ^ 35) mod 54 = 19.
 Proof. vm_compute. repeat split; reflexivity. Qed.
+
+(** =====================================================================
+    ADDENDUM -- the INT-OPERAND fragment of the simplifier (supersedes, for
+    this fragment, the first item of WHAT IS NOT PROVED above).
+
+    [PyNumArithModel.arith false] is the branch-by-branch Gallina
+    transcription of what num.py (as REPAIRED: gcd of an Add, gcd of an Exp
+    with an int exponent, negative divisor of an Exp) does for [x + n],
+    [n + x], [x - n], [n - x], [-x], [x * n], [n * x], [x // n], [x ** n] and
+    [make_exp(n, x)] when [n] is a Python int and [x] any expression tree
+    (Add/Mul/Div/Exp methods, make_add/make_mul/make_div/make_exp with their
+    normalisations, the gcd helper); the operation is a code [aop], a result
+    is a tree, a Python exception class, or [AUnm] (a step would need an
+    operation between two symbolic operands other than Add * Num; float tests
+    outside their exact range; ...).  Every `./check C18` run compares its
+    result TREES with those of the real library (tools/numarith_diff.py).
+    [arith true] is the same function except in ONE place: gcd(l, Exp) with a
+    SYMBOLIC exponent, where the returned power of the base divides
+    [base ** exp] only if the exponent is large enough -- [arith true] tests
+    that on the value of the exponent and is [AUnm] when it fails.
+    Proofs: Proofs/NumArith.v.
+
+    PROVED
+      - [C18_arith_sound] and the ten per-operator corollaries: whenever
+        [arith true] returns a tree for an operand of integer value [v], the
+        tree has the integer value [v op n] -- in particular every Div in it
+        divides and every exponent is >= 0.  For all trees, all ints, any fuel.
+        ([//]: for every [n <> 0] dividing [v]; [**]: for [0 <= n].)
+      - [C18_gcd_sound]: the repaired gcd helper (under the same test)
+        returns a common divisor of its int and of the value of its operand.
+      - [C18_arith_chk_refines]: whenever [arith true] answers, the
+        transcription [arith false] gives the same answer.
+      - [C18_arith_intexp_sound], [C18_floordiv_intexp_sound]: the
+        TRANSCRIPTION [arith false] itself is sound for EVERY operation, [//]
+        by any nonzero exact divisor included, on every operand all of whose
+        exponents are Python ints (the result again has only int exponents).
+      - [C18_arith_nodiv_sound]: and for an operand WITHOUT a Div node and any
+        operation other than [//], whatever the exponents.
+    SHARP
+      - [C18_symbolic_exponent_refuted], [C18_arith_false_symexp_unsound]: the
+        restriction cannot be dropped.  The repaired library builds
+        [x = (3 + 6 ** (-6 + 6**1)) * 6 ** (-5 + 6 ** (-5 + 6**1))] (value 24)
+        and answers [x // 3] with a tree containing [6 ** (-7 + 6**1)] = 6 ** -1,
+        which has no integer value: gcd(3, 6 ** E) = 3 although E = 0.
+    HISTORY (findings, repaired; [arith_prefix], [gcd_h_prefix] are the
+    transcription of the code before the two `fix:` commits)
+      - [C18_floordiv_prefix_refuted], [C18_gcd_prefix_unsound],
+        [C18_arith_prefix_fdiv_unsound]: [((-6 + 3**2) * (2 * 3**3)) // 54] was
+        0 (the integers say 3): gcd(54, -6 + 3**2) was min(6, 27) = 6, which
+        does not divide 3.  The repaired model answers 3.
+      - [C18_floordiv_negative_prefix_refuted]: [2**3 // -2] was [2**2].
+    NOT PROVED: anything about operations between two symbolic operands and
+    about the comparisons (still only tested differentially); completeness
+    (when the library raises or the model says [AUnm]); that the model is the
+    code (tied by the correspondence run). *)
+From BB Require Import PyNumArithModel NumArith.
+From Coq Require Import Znumtheory.
+
+Theorem C18_arith_sound : forall fuel op x r v,
+  arith true fuel op x = AVal r -> eval x = Some v -> op_pre op v -> eval r = Some (op_val op v).
+Proof. exact arith_sound. Qed.
+Print Assumptions C18_arith_sound.
+
+Theorem C18_add_int_sound : forall fuel n x r v,
+  arith true fuel (OAddI n) x = AVal r -> eval x = Some v -> eval r = Some (v + n).
+Proof. exact add_int_sound. Qed.
+Print Assumptions C18_add_int_sound.
+
+Theorem C18_radd_int_sound : forall fuel n x r v,
+  arith true fuel (ORadd n) x = AVal r -> eval x = Some v -> eval r = Some (n + v).
+Proof. exact radd_int_sound. Qed.
+Print Assumptions C18_radd_int_sound.
+
+Theorem C18_sub_int_sound : forall fuel n x r v,
+  arith true fuel (OSubI n) x = AVal r -> eval x = Some v -> eval r = Some (v - n).
+Proof. exact sub_int_sound. Qed.
+Print Assumptions C18_sub_int_sound.
+
+Theorem C18_rsub_int_sound : forall fuel n x r v,
+  arith true fuel (ORsub n) x = AVal r -> eval x = Some v -> eval r = Some (n - v).
+Proof. exact rsub_int_sound. Qed.
+Print Assumptions C18_rsub_int_sound.
+
+Theorem C18_neg_sound : forall fuel x r v,
+  arith true fuel ONeg x = AVal r -> eval x = Some v -> eval r = Some (- v).
+Proof. exact neg_sound. Qed.
+Print Assumptions C18_neg_sound.
+
+Theorem C18_mul_int_sound : forall fuel n x r v,
+  arith true fuel (OMulI n) x = AVal r -> eval x = Some v -> eval r = Some (v * n).
+Proof. exact mul_int_sound. Qed.
+Print Assumptions C18_mul_int_sound.
+
+Theorem C18_rmul_int_sound : forall fuel n x r v,
+  arith true fuel (ORmul n) x = AVal r -> eval x = Some v -> eval r = Some (n * v).
+Proof. exact rmul_int_sound. Qed.
+Print Assumptions C18_rmul_int_sound.
+
+Theorem C18_floordiv_int_sound : forall fuel n x r v,
+  arith true fuel (OFdiv n) x = AVal r -> eval x = Some v -> n <> 0 -> v mod n = 0 ->
+  eval r = Some (v / n).
+Proof. exact floordiv_int_sound. Qed.
+Print Assumptions C18_floordiv_int_sound.
+
+Theorem C18_pow_int_sound : forall fuel n x r v,
+  arith true fuel (OPow n) x = AVal r -> eval x = Some v -> 0 <= n -> eval r = Some (v ^ n).
+Proof. exact pow_int_sound. Qed.
+Print Assumptions C18_pow_int_sound.
+
+Theorem C18_make_exp_sound : forall fuel b x r v,
+  arith true fuel (OMkExp b) x = AVal r -> eval x = Some v -> 0 <= v -> eval r = Some (b ^ v).
+Proof. exact make_exp_sound. Qed.
+Print Assumptions C18_make_exp_sound.
+
+(** the repaired gcd helper (num.py:1306-1347) is a common-divisor function *)
+Theorem C18_gcd_sound : forall r l g v,
+  gcd_h true l r = AVal g -> eval r = Some v -> (g | l) /\ (g | v).
+Proof.
+  intros r l g v H E. split; [exact (gcd_gen_div_l _ _ _ _ _ H)|exact (gcd_h_sound _ _ _ _ H E)].
+Qed.
+Print Assumptions C18_gcd_sound.
+
+(** whenever the checked function answers, the transcription gives the same answer *)
+Theorem C18_arith_chk_refines : forall fuel op x r,
+  arith true fuel op x = AVal r -> arith false fuel op x = AVal r.
+Proof. exact arith_chk_refines. Qed.
+Print Assumptions C18_arith_chk_refines.
+
+(** the transcription itself: every operation, when all exponents are Python ints *)
+Theorem C18_arith_intexp_sound : forall fuel op x r v,
+  int_exps x = true -> (is_mkexp op = true -> is_int x = true) ->
+  arith false fuel op x = AVal r -> eval x = Some v -> op_pre op v ->
+  eval r = Some (op_val op v) /\ int_exps r = true.
+Proof. exact arith_false_sound_intexp. Qed.
+Print Assumptions C18_arith_intexp_sound.
+
+Theorem C18_floordiv_intexp_sound : forall fuel n x r v,
+  int_exps x = true -> arith false fuel (OFdiv n) x = AVal r -> eval x = Some v ->
+  n <> 0 -> v mod n = 0 -> eval r = Some (v / n).
+Proof. exact floordiv_false_sound_intexp. Qed.
+Print Assumptions C18_floordiv_intexp_sound.
+
+(** the transcription itself: away from Div and [//], whatever the exponents *)
+Theorem C18_arith_nodiv_sound : forall fuel op x r v,
+  not_fdiv op = true -> no_div x = true ->
+  arith false fuel op x = AVal r -> eval x = Some v -> op_pre op v ->
+  eval r = Some (op_val op v) /\ no_div r = true.
+Proof. exact arith_false_sound_nodiv. Qed.
+Print Assumptions C18_arith_nodiv_sound.
+
+(** SHARP: a symbolic exponent of value 0 (an object the repaired library builds) *)
+Theorem C18_symbolic_exponent_refuted :
+  eval sym_witness = Some 24 /\ 24 mod 3 = 0 /\
+  arith_top false (OFdiv 3) sym_witness =
+    AVal (NMul (NAdd (NInt 1) (NMul (NInt 2) (NExp 6 (NAdd (NInt (-7)) (NExp 6 (NInt 1))))))
+               (NExp 6 (NAdd (NInt (-5)) (NExp 6 (NAdd (NInt (-5)) (NExp 6 (NInt 1))))))) /\
+  eval (NMul (NAdd (NInt 1) (NMul (NInt 2) (NExp 6 (NAdd (NInt (-7)) (NExp 6 (NInt 1))))))
+             (NExp 6 (NAdd (NInt (-5)) (NExp 6 (NAdd (NInt (-5)) (NExp 6 (NInt 1))))))) = None /\
+  arith_top true (OFdiv 3) sym_witness = AUnm /\
+  gcd_h false 3 (NAdd (NInt 3) (NExp 6 (NAdd (NInt (-6)) (NExp 6 (NInt 1))))) = AVal 3 /\
+  eval (NAdd (NInt 3) (NExp 6 (NAdd (NInt (-6)) (NExp 6 (NInt 1))))) = Some 4.
+Proof. exact sym_exp_refuted. Qed.
+Print Assumptions C18_symbolic_exponent_refuted.
+
+Theorem C18_arith_false_symexp_unsound :
+  ~ (forall fuel n x r v, arith false fuel (OFdiv n) x = AVal r -> eval x = Some v ->
+       n <> 0 -> v mod n = 0 -> eval r = Some (v / n)).
+Proof. exact arith_false_symexp_unsound. Qed.
+Print Assumptions C18_arith_false_symexp_unsound.
+
+(** HISTORY: the gcd helper before the repair *)
+Theorem C18_gcd_prefix_unsound :
+  gcd_h_prefix 54 (NAdd (NInt (-6)) (NExp 3 (NInt 2))) = AVal 6 /\
+  eval (NAdd (NInt (-6)) (NExp 3 (NInt 2))) = Some 3 /\
+  gcd_h_prefix 54 (NExp 3 (NInt 2)) = AVal 27 /\ eval (NExp 3 (NInt 2)) = Some 9 /\
+  gcd_h false 54 (NAdd (NInt (-6)) (NExp 3 (NInt 2))) = AVal 3 /\
+  gcd_h false 54 (NExp 3 (NInt 2)) = AVal 9.
+Proof. exact gcd_h_prefix_unsound. Qed.
+Print Assumptions C18_gcd_prefix_unsound.
+
+(** HISTORY: [((-6 + 3**2) * (2 * 3**3)) // 54] was answered 0; 162 = 3 * 54 *)
+Theorem C18_floordiv_prefix_refuted :
+  eval fdiv_witness = Some 162 /\ 162 mod 54 = 0 /\ 162 / 54 = 3 /\
+  arith_prefix_top (OFdiv 54) fdiv_witness = AVal (NInt 0) /\
+  arith_top false (OFdiv 54) fdiv_witness = AVal (NInt 3).
+Proof. exact fdiv_prefix_refuted. Qed.
+Print Assumptions C18_floordiv_prefix_refuted.
+
+Theorem C18_arith_prefix_fdiv_unsound :
+  ~ (forall fuel n x r v, arith_prefix fuel (OFdiv n) x = AVal r -> eval x = Some v ->
+       0 < n -> v mod n = 0 -> eval r = Some (v / n)).
+Proof. exact arith_prefix_fdiv_unsound. Qed.
+Print Assumptions C18_arith_prefix_fdiv_unsound.
+
+(** HISTORY: a negative divisor ([2**3 // -2] was [2**2]) *)
+Theorem C18_floordiv_negative_prefix_refuted :
+  arith_prefix_top (OFdiv (-2)) (NExp 2 (NInt 3)) = AVal (NExp 2 (NInt 2)) /\
+  eval (NExp 2 (NInt 3)) = Some 8 /\ 8 mod (-2) = 0 /\ 8 / (-2) = -4 /\ eval (NExp 2 (NInt 2)) = Some 4 /\
+  arith_top false (OFdiv (-2)) (NExp 2 (NInt 3)) = AVal (NMul (NInt (-1)) (NExp 2 (NInt 2))).
+Proof. exact floordiv_negative_prefix_refuted. Qed.
+Print Assumptions C18_floordiv_negative_prefix_refuted.
